@@ -1,14 +1,18 @@
-//! Unit components: each drives one piece of real mmtk-core code through the line protocol.
-//! `run(args, st)` gets the tokens after the component name and returns the result line.
-pub mod arith;
-pub mod revgroup;
+//! Unit components, grouped in packages so that packages can be developed independently.
+//! Each package has `dispatch(tokens) -> Option<String>` (None = not my component).
+pub mod base;
+pub mod conc;
+pub mod ds;
+pub mod layout;
+pub mod meta;
+pub mod misc;
 
 /// Dispatch one line. Returns None for an unknown component.
 pub fn dispatch(tokens: &[&str]) -> Option<String> {
-    let (c, args) = tokens.split_first()?;
-    Some(match *c {
-        "arith" => arith::run(args),
-        "revgroup" => revgroup::run(args),
-        _ => return None,
-    })
+    base::dispatch(tokens)
+        .or_else(|| meta::dispatch(tokens))
+        .or_else(|| ds::dispatch(tokens))
+        .or_else(|| layout::dispatch(tokens))
+        .or_else(|| misc::dispatch(tokens))
+        .or_else(|| conc::dispatch(tokens))
 }
